@@ -1625,6 +1625,10 @@ func (vm *Thread) BuildStackTrace() *value.StackTrace {
 }
 
 func (vm *Thread) BuildStackTracePrepend(base *value.StackTrace) *value.StackTrace {
+	if base == nil {
+		// a promise rejected from native code has no stack trace of its own
+		return vm.BuildStackTrace()
+	}
 	callStack := vm.callStack()
 
 	stackTraceSlice := make([]value.CallFrame, 0, len(*base)+len(callStack)+1)
